@@ -2,6 +2,7 @@
 use crate::fw::{Cfg, Report};
 
 pub mod c01;
+pub mod c01_boundary;
 pub mod c02;
 pub mod c03;
 pub mod c04;
